@@ -89,6 +89,15 @@ def reuse_monitor(ctx, n_cases, budget):
             ctx.reject("build:" + common.exc_mechanism(e))
             continue
         ra = engine.real_args(args)
+        # a value at every site; the duplicated sites share one address (and one value); a site
+        # whose address would sit above/below another entry cannot be written into one map
+        vals = {}
+        for st in node.sites():
+            for pth, _ in st.paths():
+                if pth in vals or any(q[: len(pth)] == pth or pth[: len(q)] == q for q in vals):
+                    continue
+                vals[pth] = engine.sample_site_value(rng, st.dist)
+        full_chm = obs.build_constraint(vals)
         for op in ("simulate", "importance", "assess"):
             try:
                 if op == "simulate":
@@ -98,12 +107,7 @@ def reuse_monitor(ctx, n_cases, budget):
 
                     case.gf.importance(engine.key(ci), ChoiceMap.empty(), ra)
                 else:
-                    # a value at every site (the duplicated sites share one address and one value)
-                    vals = {}
-                    for st in node.sites():
-                        for pth, _ in st.paths():
-                            vals.setdefault(pth, engine.sample_site_value(rng, st.dist))
-                    case.gf.assess(obs.build_constraint(vals), ra)
+                    case.gf.assess(full_chm, ra)
                 raised = None
             except Exception as e:  # noqa
                 raised = e
